@@ -5,7 +5,7 @@ machine (geometry_tools/utils/core.py, projective.py, hyperbolic.py).
 -/
 import GT.Model.ND
 
-namespace GT
+namespace GT.Act
 open ND
 
 variable {K : Type} [Inhabited K]
@@ -147,4 +147,4 @@ def Obj.apply [Add K] [Mul K] [Zero K] (A : ND K) (X : Obj K) (mode : Bcast) : E
 projective.py:496 `__getitem__`, :502 `__len__`): `obj[0], obj[1], …` -/
 def iterItems (a : ND K) : List (ND K) := (List.range (a.shape.headD 0)).map fun k => a.sub [k]
 
-end GT
+end GT.Act
